@@ -71,7 +71,10 @@ func c20XMLBodies(valid []byte) []string {
 		"<CompleteMultipartUpload><Part><ETag>x</ETag></Part></CompleteMultipartUpload>", "<CompleteMultipartUpload><Part><PartNumber>99999999999</PartNumber><ETag>x</ETag></Part></CompleteMultipartUpload>",
 		"<Tagging/>", "<Tagging><TagSet/></Tagging>", "<Tagging><TagSet><Tag/></TagSet></Tagging>", "<Tagging><TagSet><Tag><Key/></Tag></TagSet></Tagging>",
 		"<VersioningConfiguration/>", "<VersioningConfiguration><Status/></VersioningConfiguration>", "<VersioningConfiguration><Status>Maybe</Status></VersioningConfiguration>",
-		"<ObjectLockConfiguration/>", "<ObjectLockConfiguration><Rule/></ObjectLockConfiguration>", "<ObjectLockConfiguration><ObjectLockEnabled>Enabled</ObjectLockEnabled><Rule><DefaultRetention/></Rule></ObjectLockConfiguration>",
+		"<ObjectLockConfiguration/>", "<ObjectLockConfiguration><Rule/></ObjectLockConfiguration>",
+		"<ObjectLockConfiguration><ObjectLockEnabled>Enabled</ObjectLockEnabled></ObjectLockConfiguration>",
+		"<ObjectLockConfiguration><ObjectLockEnabled>Enabled</ObjectLockEnabled><Rule/></ObjectLockConfiguration>",
+		"<ObjectLockConfiguration><ObjectLockEnabled>Enabled</ObjectLockEnabled><Rule><DefaultRetention><Mode>GOVERNANCE</Mode></DefaultRetention></Rule></ObjectLockConfiguration>", "<ObjectLockConfiguration><ObjectLockEnabled>Enabled</ObjectLockEnabled><Rule><DefaultRetention/></Rule></ObjectLockConfiguration>",
 		"<ObjectLockConfiguration><ObjectLockEnabled>Enabled</ObjectLockEnabled><Rule><DefaultRetention><Mode>GOVERNANCE</Mode><Days>-1</Days></DefaultRetention></Rule></ObjectLockConfiguration>",
 		"<ObjectLockConfiguration><ObjectLockEnabled>Enabled</ObjectLockEnabled><Rule><DefaultRetention><Mode>GOVERNANCE</Mode><Days>1</Days><Years>1</Years></DefaultRetention></Rule></ObjectLockConfiguration>",
 		"<ObjectLockConfiguration><ObjectLockEnabled>Enabled</ObjectLockEnabled><Rule><DefaultRetention><Days>99999999999</Days></DefaultRetention></Rule></ObjectLockConfiguration>",
